@@ -5,7 +5,7 @@
    depend on the order in which comb items are evaluated, as long as the order is a dependency order —
    so "equal to the reference" is a well-defined oracle no matter how an engine schedules its comb
    statements.  This file holds only statements. *)
-From VV Require Import Rtl.Cycle Rtl.Frame Rtl.CombProofs Rtl.CycleProofs.
+From VV Require Import Rtl.Cycle Rtl.Frame Rtl.CombProofs Rtl.CycleProofs Rtl.ModeProofs.
 From Coq Require Import Permutation.
 Open Scope N_scope.
 
@@ -37,6 +37,25 @@ Theorem C02_ref_trace_order_irrelevant :
                         run md D l ffs outs stim st = run md D l' ffs outs stim st'.
 Proof. exact run_order_irrelevant. Qed.
 
+(* ref_4state_refines_2state, PARTIAL: proved per expression evaluation (every right-hand side,
+   condition and case match is one), not yet lifted to whole traces.  If the 4-state evaluation meets
+   no x/z at any literal or operator result (clean), the 2-state evaluation gives the same value.
+   Full statement (not proved): for a run in which every evaluated expression is clean and every
+   variable read is known, run M2 = run M4. *)
+Theorem C02_ref_4state_refines_2state_partial :
+  forall D st e c, clean D st c e -> ev M2 D st c e = ev M4 D st c e.
+Proof. exact ev_M2_eq_M4. Qed.
+
+(* The hypothesis cannot be weakened to "no x/z in the RESULT": x that arises (division by zero) and
+   is absorbed (by ==) makes the modes differ although neither result holds x/z ... *)
+Theorem C02_absorbed_x_differs :
+  let e := EBin BEq (EBin BDiv (EVar 0) (EVar 1)) (ELit 8 false 0 0) in
+  ev M2 ex_D ex_st (mkCtx 1 false) e = mkVec 1 0 /\ ev M4 ex_D ex_st (mkCtx 1 false) e = mkVec 0 1.
+Proof. exact absorbed_x_differs. Qed.
+Example C02_clean_example :
+  clean ex_D ex_st (mkCtx 9 false) (EBin BAdd (EVar 0) (EUn UBitNot (EVar 1))).
+Proof. exact clean_example. Qed.
+
 (* Non-vacuity: a three-item comb program (one always_comb with an if, two assigns), its two
    dependency orders are accepted by the executable side conditions and are permutations. *)
 Definition ex_decls := decls_of [mkDecl 8 false false KIn; mkDecl 8 true false KIn;
@@ -54,3 +73,5 @@ Proof. repeat split; try reflexivity. apply perm_skip, perm_swap. Qed.
 Print Assumptions C02_comb_order_irrelevant.
 Print Assumptions C02_settle_order_irrelevant.
 Print Assumptions C02_ref_trace_order_irrelevant.
+Print Assumptions C02_ref_4state_refines_2state_partial.
+Print Assumptions C02_absorbed_x_differs.
